@@ -156,6 +156,7 @@ type Trace struct {
 	Name   string
 	Event  func(kind string, n int, err error) // kinds: lock-ok lock-fail unlock page close reserved
 	FailAt int                                 // optional: k-th page read returns an error (after the real read)
+	FailErr error                              // the error of that read (default ErrInjected); io.EOF = what the file pager returns for a page beyond the end of a truncated file
 	Reads  int
 	Fired  bool
 	mu     sync.Mutex // Reads/FailAt/Fired may be touched from the producer goroutine and the scheduler
@@ -175,6 +176,9 @@ func (t *Trace) Page(n int, pagesize int) ([]byte, error) {
 	t.Reads++
 	if t.FailAt > 0 && t.Reads == t.FailAt {
 		err = ErrInjected
+		if t.FailErr != nil {
+			err = t.FailErr
+		}
 		b = nil
 		t.Fired = true
 	}
